@@ -390,7 +390,11 @@ func TestCheck(t *testing.T) {
 			}
 			judge(r, "v4", w, prev4, rng, "")
 			prev4 = w
-		case 2, 3: // hand-built name-bearing DHCPv6 messages (compressed, partial, nested)
+		case 2: // hand-written non-canonical DHCPv6 messages, bare and relayed (what re-encoding gives differs from what was received)
+			w := gen6.NonCanonical(rng)
+			judge(r, "v6", w, prev6, rng, "")
+			prev6 = w
+		case 3: // hand-built name-bearing DHCPv6 messages (compressed, partial, nested)
 			w := named6(rng)
 			judge(r, "v6", w, prev6, rng, "")
 			prev6 = w
